@@ -634,6 +634,34 @@ func (ck *checker) check1(p jpref.Path, data any, enum bool) {
 	}
 	// gen twin
 	gd := toGen(data)
+	// First / FirstFound / Has on the gen twin (their gen branches are separate code)
+	var gfirst any
+	var gfound, ghas bool
+	if pn := mon.Guard(func() { gfirst, gfound = x.FirstFound(gd); ghas = x.Has(gd) }); pn != nil {
+		ck.v("jp.Expr.First(gen)", "panic", class, cs, "value", pn.String())
+	} else {
+		c.Eval(2)
+		c.Cover("eval:First(gen)")
+		switch {
+		case ghas != (len(got) > 0):
+			ck.v("jp.Expr.Has(gen)", "differs-from-get", class, cs, fmt.Sprint(len(got) > 0), fmt.Sprint(ghas))
+		case gfound != (len(got) > 0):
+			ck.v("jp.Expr.FirstFound(gen)", "found-differs-from-get", class, cs, fmt.Sprint(len(got) > 0), fmt.Sprint(gfound))
+		case gfound:
+			t := treegen.Show(norm(gfirst))
+			ok := false
+			for _, s := range textSet(got) {
+				ok = ok || s == t
+			}
+			if !ok {
+				ck.v("jp.Expr.First(gen)", "not-a-member-of-get", class, cs, clip(strings.Join(textSet(got), " ")), t)
+			} else if totalOrder(want) {
+				if f0 := treegen.Show(norm(got[0])); f0 != t {
+					ck.v("jp.Expr.First(gen)", "not-the-first", class, cs, f0, t)
+				}
+			}
+		}
+	}
 	var gn []gen.Node
 	var fn gen.Node
 	if pn := mon.Guard(func() { gn = x.GetNodes(gd); fn = x.FirstNode(gd) }); pn != nil {
